@@ -73,7 +73,7 @@ def run(tier):
                 counts[v] = counts.get(v, 0) + 1
             out = rr["v"] if rr["r"] == "ok" else ""
             events.append({"kind": "speech", "res": rr["r"] if r["results"][oi - 1]["r"] == "ok" else "set_mathml-" + r["results"][oi - 1]["r"],
-                           "out": C.cps(out), "lits": [{"run": C.cps(v), "n": n} for v, n in counts.items()], "boundary": 1})
+                           "out": C.cps(out), "lits": [{"runs": [C.cps(v)], "n": n} for v, n in counts.items()], "boundary": 1})
             back.append((si, oi))
     rejects, drifts, _ = C.validate_trace("Trace_Operands", "Trace_Operands.cfg", events, wd, timeout=2400, heap="10g")
     verdict = C.Verdict(PID)
@@ -112,8 +112,8 @@ def run(tier):
 
 def selftest(tier):
     wd = C.workdir("c04_self")
-    ev = [{"kind": "speech", "res": "ok", "out": C.cps("23.2 plus 25.3"), "lits": [{"run": C.cps("23.2"), "n": 1}, {"run": C.cps("25.3"), "n": 1}], "boundary": 1},
-          {"kind": "speech", "res": "ok", "out": C.cps("23.2 plus 125.3"), "lits": [{"run": C.cps("23.2"), "n": 1}, {"run": C.cps("25.3"), "n": 1}], "boundary": 1}]
+    ev = [{"kind": "speech", "res": "ok", "out": C.cps("23.2 plus 25.3"), "lits": [{"runs": [C.cps("23.2")], "n": 1}, {"runs": [C.cps("25.3")], "n": 1}], "boundary": 1},
+          {"kind": "speech", "res": "ok", "out": C.cps("23.2 plus 125.3"), "lits": [{"runs": [C.cps("23.2")], "n": 1}, {"runs": [C.cps("25.3")], "n": 1}], "boundary": 1}]
     rej, _, _ = C.validate_trace("Trace_Operands", "Trace_Operands.cfg", ev, wd)
     if [i for i, _ in rej] != [2]:
         raise C.ToolError(f"selftest: {rej}")
